@@ -239,6 +239,45 @@ func main() {
 			val := r.Pick([]string{"42", "abc", "x", "", "a.b", "$v", "*", "a?b", "ö", "7"})
 			add("random", desc{p, s, tag, val})
 		}
+		// (b2) multi-tag patterns against names whose tokens look like tags of the SAME pattern ("$"+another tag's
+		// name, the tag's own name, "$$"...): substituting extracted values back must not re-substitute them
+		tagSets := [][]string{{"a", "b"}, {"b", "a"}, {"id", "a"}, {"shelf", "book"}, {"shelf", "book", "page"}, {"a", "b", "id"}}
+		for _, ts := range tagSets {
+			var pt []string
+			for i, t := range ts {
+				if i == 1 {
+					pt = append(pt, "lib")
+				}
+				pt = append(pt, "$"+t)
+			}
+			p := strings.Join(pt, ".")
+			vals := []string{"x", "42"}
+			for _, t := range ts {
+				vals = append(vals, "$"+t, t)
+			}
+			var rec func(i int, cur []string)
+			rec = func(i int, cur []string) {
+				if i == len(pt) {
+					add("tagvalues", desc{p, strings.Join(cur, "."), ts[0], "$" + ts[len(ts)-1]})
+					return
+				}
+				if pt[i] == "lib" {
+					rec(i+1, append(append([]string{}, cur...), "lib"))
+					return
+				}
+				for _, v := range vals {
+					rec(i+1, append(append([]string{}, cur...), v))
+				}
+			}
+			if len(ts) <= 2 || o.Tier == "thorough" {
+				rec(0, nil)
+			} else {
+				// three tags: a diagonal sample in the quick tier
+				for k := 0; k < len(vals); k++ {
+					add("tagvalues", desc{p, strings.Join([]string{vals[k], "lib", vals[(k+1)%len(vals)], vals[(k+3)%len(vals)]}, "."), ts[0], "$" + ts[1]})
+				}
+			}
+		}
 		// (c) every byte value in each position of a length-3 string for the validators
 		if o.Tier == "thorough" {
 			for pos := 0; pos < 3; pos++ {
